@@ -34,8 +34,23 @@ func cmdVerify(args []string) {
 	timeout := fs.Int("timeout", 10, "solver timeout per obligation (s)")
 	dump := fs.String("dump", "", "dump scripts of obligations whose name contains this string")
 	verbose := fs.Bool("v", false, "verbose")
+	mutate := fs.String("mutate", "", "file::old::new (in-memory overlay mutation)")
 	fs.Parse(args)
-	eng, err := LoadEngine(*repo, strings.Split(*pkgs, ","), nil)
+	var overlay map[string][]byte
+	if *mutate != "" {
+		parts := strings.SplitN(*mutate, "::", 3)
+		path := *repo + "/" + parts[0]
+		data, err := os.ReadFile(path)
+		if err != nil {
+			panic(err)
+		}
+		if strings.Count(string(data), parts[1]) != 1 {
+			fmt.Fprintf(os.Stderr, "mutation pattern occurs %d times\n", strings.Count(string(data), parts[1]))
+			os.Exit(2)
+		}
+		overlay = map[string][]byte{path: []byte(strings.Replace(string(data), parts[1], parts[2], 1))}
+	}
+	eng, err := LoadEngine(*repo, strings.Split(*pkgs, ","), overlay)
 	if err != nil {
 		fmt.Fprintln(os.Stderr, "BUILD-ERROR:", err)
 		os.Exit(2)
@@ -111,7 +126,7 @@ func cmdVerify(args []string) {
 					if ob.Status != "unsat" || obs[0].Kind == "cover" {
 						fn := fmt.Sprintf("/tmp/govc_dump_%d.smt2", i)
 						os.WriteFile(fn, []byte(ob.Script), 0o644)
-						fmt.Printf("      dumped %s (%s) goal=%s\n", fn, ob.Status, ob.Goal)
+						fmt.Printf("      dumped %s (%s) trace=%s\n", fn, ob.Status, ob.Trace)
 						if ob.Model != "" && *verbose {
 							fmt.Println(ob.Model)
 						}
